@@ -6,6 +6,7 @@ import (
 	"strconv"
 	"strings"
 	"time"
+	"unsafe"
 
 	"nhooyr.io/websocket"
 	"verif/engine/explore"
@@ -14,6 +15,7 @@ import (
 	"verif/engine/vs"
 	"verif/engine/vtime"
 	"verif/fw"
+	"verif/refws/deflate"
 	"verif/refws/frame"
 )
 
@@ -356,5 +358,94 @@ func init() {
 	fw.Register(fw.Part{Prop: "C09", Name: "s.term",
 		Units:  func(tier string) []fw.Unit { return scenarioUnits(c09Scenarios(tier)) },
 		Replay: replayFn(c09Scenarios),
+	})
+}
+
+// Two connections of one process: package-level state of the library (the table of
+// sliding-window pools is built lazily by the first compressed reads) must not let
+// one connection's Close or CloseNow wait for another connection. A and B (context
+// takeover) each receive their first compressed message at the same time; then A
+// is closed with Close (silent peer) and B with CloseNow.
+func c09TwoConnSetup(k connCfg) func(c *fw.Ctx, name string) explore.Setup {
+	return func(c *fw.Ctx, name string) explore.Setup {
+		return func(w *vs.World) func(bool) {
+			pa, pb := vpipe.New(), vpipe.New()
+			var tA0, tA1, tB0, tB1 int64
+			var doneA, doneB bool
+			reads := 0
+			var gate struct{ x int }
+			w.GoHarness("main", true, func() {
+				bg := vctx.Background()
+				a, b := mkConn(pa, k), mkConn(pb, k)
+				for i, x := range []struct {
+					conn *websocket.Conn
+					p    *vpipe.Pipe
+				}{{a, pa}, {b, pb}} {
+					x := x
+					cp := (&deflate.Deflater{}).Message(fill(byte(0xA0+i), 400))
+					x.p.Send(peerFrame(k, frame.Frame{Fin: true, Rsv1: true, Opcode: frame.OpBinary, Payload: cp}))
+					w.GoHarness(fmt.Sprintf("reader%d", i), true, func() {
+						x.conn.Read(bg)
+						vs.BlockOn(unsafe.Pointer(&gate), "read-done", nil, func() { reads++ })
+					})
+				}
+				w.GoHarness("closerA", true, func() {
+					vs.BlockOn(unsafe.Pointer(&gate), "wait-reads", func() bool { return reads == 2 }, func() {})
+					tA0 = w.Now
+					a.Close(websocket.StatusNormalClosure, "")
+					tA1 = w.Now
+					doneA = true
+				})
+				w.GoHarness("closerB", true, func() {
+					vs.BlockOn(unsafe.Pointer(&gate), "wait-reads", func() bool { return reads == 2 }, func() {})
+					tB0 = w.Now
+					b.CloseNow()
+					tB1 = w.Now
+					doneB = true
+				})
+			})
+			return func(complete bool) {
+				if !complete {
+					return
+				}
+				locus := "two-connections/" + k.String()
+				if w.Panic != "" {
+					violate(c, w, name, "C09/panic/"+locus, w.Panic)
+					return
+				}
+				c.OutcomeStr(fmt.Sprintf("%s|A=%v/%dms|B=%v/%dms", name, doneA, (tA1-tA0)/1e6, doneB, (tB1-tB0)/1e6))
+				switch {
+				case !doneA:
+					violate(c, w, name, "C09/Close-never-returns/"+locus, fmt.Sprintf("Close on connection A did not return (deadlock=%v); stuck tasks %v", w.Deadlock, stuckTasks(w)))
+				case !doneB:
+					violate(c, w, name, "C09/CloseNow-never-returns/"+locus, fmt.Sprintf("CloseNow on connection B did not return (deadlock=%v); stuck tasks %v", w.Deadlock, stuckTasks(w)))
+				case tA1-tA0 > 10*c09Sec+c09Sec/2:
+					violate(c, w, name, "C09/Close-exceeds-bound/"+locus, fmt.Sprintf("Close on A returned after %v", time.Duration(tA1-tA0)))
+				case tB1-tB0 > c09Sec:
+					violate(c, w, name, "C09/CloseNow-not-prompt/"+locus, fmt.Sprintf("CloseNow on B returned after %v", time.Duration(tB1-tB0)))
+				case w.Deadlock || w.HorizonHit:
+					violate(c, w, name, "C09/blocked-call-never-returns/"+locus, fmt.Sprintf("both connections are closed but tasks %v never return", stuckTasks(w)))
+				}
+			}
+		}
+	}
+}
+
+func c09TwoConnScenarios(tier string) []scenario {
+	var scs []scenario
+	p := 1
+	if tier == "thorough" {
+		p = 2
+	}
+	for _, k := range []connCfg{{Client: false, Flate: true, Thr: 1}, {Client: true, Flate: true, Thr: 1}} {
+		scs = append(scs, scenario{Name: "two-connections/" + k.String(), Cfg: explore.Config{P: p, T: 0, Horizon: 120e9}, Setup: c09TwoConnSetup(k)})
+	}
+	return scs
+}
+
+func init() {
+	fw.Register(fw.Part{Prop: "C09", Name: "s.twoconn",
+		Units:  func(tier string) []fw.Unit { return scenarioUnits(c09TwoConnScenarios(tier)) },
+		Replay: replayFn(c09TwoConnScenarios),
 	})
 }
